@@ -742,6 +742,17 @@ func offeredSetLookupGuard(b *ssa.BasicBlock, fn *ssa.Function, ses ssa.Value, f
 		if cd.Op != token.ILLEGAL || !cd.True {
 			return false
 		}
+		// a membership test of the peer's value directly in the offered list handed to this function
+		if call, _ := callOf(cd.Val); call != nil {
+			if list, elem, isMember := membershipCall(curProg, call); isMember && fieldOf(elem, ses, field) {
+				for _, o := range sliceOrigins(list) {
+					if pr, isParam := stripConv(o).(*ssa.Parameter); !isParam || pr.Parent() != fn {
+						return false
+					}
+				}
+				return len(sliceOrigins(list)) > 0
+			}
+		}
 		ex, ok := stripConv(cd.Val).(*ssa.Extract)
 		if !ok || ex.Index != 1 {
 			return false
